@@ -105,6 +105,45 @@ pub fn run_form(m: &mut MwVm, form: &Cell) -> MwForm {
     }
 }
 
+/// Like run_form, but the evaluation is driven in slices of `budget` instructions (prepare_eval +
+/// repeated run_count), the way an embedder with a cooperative scheduler drives it.
+pub fn run_form_sliced(m: &mut MwVm, form: &Cell, budget: usize) -> MwForm {
+    m.events.borrow_mut().clear();
+    let budget = budget.max(1);
+    let r = catch(|| match m.vm.prepare_eval(form) {
+        Ok(()) => {
+            let mut spent: usize = 0;
+            loop {
+                match m.vm.run_count(budget) {
+                    Ok(Some(c)) => break Ok(c),
+                    Ok(None) => {
+                        spent = spent.saturating_add(budget);
+                        if spent > INSTR_BUDGET {
+                            break Err(Error::InvalidSyntax(BUDGET_MARK.into()));
+                        }
+                    }
+                    Err(e) => break Err(e),
+                }
+            }
+        }
+        Err(e) => Err(e),
+    });
+    let output = m.events.borrow().clone();
+    match r {
+        Ok(Err(Error::InvalidSyntax(s))) if s == BUDGET_MARK => {
+            *m = MwVm::new();
+            MwForm { outcome: MwOutcome::Budget, output, trace_frames: None }
+        }
+        Err(p) => MwForm { outcome: MwOutcome::Panic(p), output, trace_frames: None },
+        Ok(Ok(c)) => MwForm { outcome: MwOutcome::Value(d_of_cell(&c)), output, trace_frames: None },
+        Ok(Err(e)) => {
+            let (class, payload) = classify(&e);
+            let frames = m.vm.last_stacktrace().map(|t| t.frames.len());
+            MwForm { outcome: MwOutcome::Failure(class, payload, format!("{}", catch(|| e.to_string()).unwrap_or_else(|_| "<error display panicked>".into()))), output, trace_frames: frames }
+        }
+    }
+}
+
 /// None if they agree; otherwise a short mismatch kind plus a description.
 pub fn compare(model: &FormResult, mw: &MwForm) -> Option<(String, String)> {
     // output first: order and content of display/write events
